@@ -136,13 +136,15 @@ std::string PoolDigest(SimNode& node)
 std::string VerdictStr(const Verdict& v) { return v.valid ? "valid" : v.ResultName() + ":" + v.reason; }
 std::string EventsStr(const std::vector<ChainEvent>& evs)
 {
-    std::string s;
+    // BlockChecked is delivered synchronously, connect / disconnect notifications through the background queue: their relative
+    // order in the recorder is not defined, so the two sequences are kept apart
+    std::string k, c;
     for (const auto& e : evs) {
-        if (e.kind == ChainEvent::CHECKED) s += " K" + e.hash.ToString().substr(0, 6) + "=" + VerdictStr(e.verdict);
-        else if (e.kind == ChainEvent::CONNECTED) s += " C" + e.hash.ToString().substr(0, 6);
-        else if (e.kind == ChainEvent::DISCONNECTED) s += " D" + e.hash.ToString().substr(0, 6);
+        if (e.kind == ChainEvent::CHECKED) k += " K" + e.hash.ToString().substr(0, 6) + "=" + VerdictStr(e.verdict);
+        else if (e.kind == ChainEvent::CONNECTED) c += " C" + e.hash.ToString().substr(0, 6);
+        else if (e.kind == ChainEvent::DISCONNECTED) c += " D" + e.hash.ToString().substr(0, 6);
     }
-    return s;
+    return k + " /" + c;
 }
 
 // ---------------------------------------------------------------------------------------------------------
@@ -779,14 +781,14 @@ struct Gen {
         }
     }
 
-    void IntentFlag()
+    void IntentFlag(std::optional<Fam> forced = std::nullopt, int forced_variant = -1)
     {
         static const Fam fams[] = {Fam::DERSIG, Fam::CLTV, Fam::CSV, Fam::NULLDUMMY};
         // prefer families whose boundary is near
         std::vector<Fam> order(fams, fams + 4);
         rng.shuffle(order);
         std::sort(order.begin(), order.end(), [&](Fam a, Fam b) { return std::abs(tw.HeightOf(a) - NextHeight()) < std::abs(tw.HeightOf(b) - NextHeight()); });
-        const Fam f = rng.chance(3, 4) ? order[0] : order[rng.below(4)];
+        const Fam f = forced ? *forced : (rng.chance(3, 4) ? order[0] : order[rng.below(4)]);
         const int hx = tw.HeightOf(f);
         // re-use a parked transaction of this family when there is one (the same transaction under different flags)
         std::optional<Special> sp;
@@ -803,12 +805,12 @@ struct Gen {
         const int h = NextHeight();
         if (rng.chance(1, 5)) Submit(sp->tx, rng.coin(), "rej", std::string("flag-mempool:") + FamName(f));
         if (h < hx) {
-            const int variant = (int)rng.below(3);
+            const int variant = forced_variant >= 0 ? forced_variant : (int)rng.below(3);
             if (variant == 0) {
                 // test-validate below the boundary (results are stored), then mine it at / above the boundary
                 Tbv(BuildBlock(Tip(), {*sp}, false, "flag:tbv-pre"), std::string("flag:tbv-pre:") + FamName(f));
                 tw.Obs("flag_tbv_pre");
-                if (hx - h <= 8) {
+                if (hx - h <= 12) {
                     MineEmpty(hx - h, "to-boundary");
                     Mine(BuildBlock(Tip(), {*sp}, false, "flag:post"), std::string("flag:post-after-tbv:") + FamName(f));
                     tw.Obs("flag_post_after_pre_validation");
@@ -818,7 +820,7 @@ struct Gen {
                 Built b = BuildBlock(Tip(), {*sp}, false, "flag:pre");
                 Mine(b, std::string("flag:pre:") + FamName(f));
                 tw.Obs("flag_mined_pre");
-                if (b.model_valid && node.TipHash() == b.rb->hash && hx - h <= 8 && rng.chance(2, 3)) {
+                if (b.model_valid && node.TipHash() == b.rb->hash && hx - h <= 12 && rng.chance(2, 3)) {
                     InvalidateAt(b.rb->height, "flag:undo-pre");
                     parked.push_back(*sp);
                     reserved.insert(sp->tx->vin[0].prevout);
@@ -968,10 +970,10 @@ VH_CMD(cachetwin)
         const int base = 104 + (int)rng.below(5);
         // move a random non-empty subset of the deployments to a few blocks above the base chain
         const unsigned mask = 1 + (unsigned)rng.below(15);
-        if (mask & 1) nopts.h_dersig = base + 2 + (int)rng.below(8);
-        if (mask & 2) nopts.h_cltv = base + 2 + (int)rng.below(8);
-        if (mask & 4) nopts.h_csv = base + 2 + (int)rng.below(8);
-        if ((mask & 8) && rng.coin()) nopts.h_segwit = base + 2 + (int)rng.below(6);
+        if (mask & 1) nopts.h_dersig = base + 2 + (int)rng.below(26);
+        if (mask & 2) nopts.h_cltv = base + 2 + (int)rng.below(26);
+        if (mask & 4) nopts.h_csv = base + 2 + (int)rng.below(26);
+        if ((mask & 8) && rng.coin()) nopts.h_segwit = base + 2 + (int)rng.below(12);
         Twin tw(args, c, rng, nopts);
         MpOpts mopts;
         mopts.require_standard = true;
@@ -986,9 +988,22 @@ VH_CMD(cachetwin)
             KeyRing keys(rng, 5);
             {
                 Gen g(tw, node, led, keys, rng);
+                node.Sync();
+                node.Verdicts().TakeEvents(); // genesis activation
                 for (int i = 0; i < base; ++i) g.Mine(g.BuildBlock(g.Tip(), {}, false, "base"), "base");
                 const int n = (int)rng.range(intents_min, intents_max);
-                for (int i = 0; i < n; ++i) g.Step();
+                for (int i = 0; i < n; ++i) {
+                    // whenever a moved boundary is 1..3 blocks ahead: validate a flag-sensitive transaction below it, then above it
+                    bool swept = false;
+                    for (Fam f : {Fam::DERSIG, Fam::CLTV, Fam::CSV, Fam::NULLDUMMY}) {
+                        const int ahead = tw.HeightOf(f) - g.NextHeight();
+                        if (!swept && ahead >= 1 && ahead <= 3 && rng.chance(2, 3)) {
+                            g.IntentFlag(f, (int)rng.below(2));
+                            swept = true;
+                        }
+                    }
+                    if (!swept) g.Step();
+                }
                 g.IntentMinePool();
             }
         }
@@ -999,6 +1014,8 @@ VH_CMD(cachetwin)
             ob.script_cache_bytes = 0;
             SimNode node(ob);
             InstallMempool(node, mopts);
+            node.Sync();
+            node.Verdicts().TakeEvents(); // genesis activation
             for (const auto& a : tw.acts) tw.vb.push_back(tw.Exec(node, a, nullptr, tw.probe_b));
         }
         // =========================================================== compare + log
